@@ -39,6 +39,47 @@ def _git_head(d):
         return "unknown"
 
 
+def _descendants(pid):
+    """pids of all live descendants of `pid` (from /proc; Linux)"""
+    kids = {}
+    for d in os.listdir("/proc"):
+        if d.isdigit():
+            try:
+                with open("/proc/%s/stat" % d) as f:
+                    st = f.read()
+                ppid = int(st[st.rindex(")") + 2:].split()[1])
+                kids.setdefault(ppid, []).append(int(d))
+            except (OSError, ValueError):
+                pass
+    out, todo = [], [pid]
+    while todo:
+        for k in kids.get(todo.pop(), []):
+            out.append(k)
+            todo.append(k)
+    return out
+
+
+def _install_deadline(pid, tier):
+    """a check that does not finish (a dead pool worker, a hung driver) ends with exit 2 - neither verdict - instead
+    of hanging: VERIF_DEADLINE seconds (default: quick 1500, thorough 3600) after start the run is abandoned"""
+    import signal
+    import threading
+    limit = float(os.environ.get("VERIF_DEADLINE", "1500" if tier == "quick" else "3600"))
+
+    def abort():
+        sys.stderr.write("[%s] deadline of %.0f s passed: the run is abandoned (exit 2, no verdict)\n" % (pid, limit))
+        sys.stderr.flush()
+        for k in _descendants(os.getpid()):
+            try:
+                os.kill(k, signal.SIGKILL)
+            except OSError:
+                pass
+        os._exit(2)
+    t = threading.Timer(limit, abort)
+    t.daemon = True
+    t.start()
+
+
 def main(argv=None):
     ap = argparse.ArgumentParser()
     ap.add_argument("pid")
@@ -54,6 +95,8 @@ def main(argv=None):
         except ValueError:
             seed = 0
     pid = args.pid
+    if not args.replay:
+        _install_deadline(pid, args.tier)
     ctx = Ctx(pid, args.tier, seed)
     try:
         mod = importlib.import_module("harness.props." + pid)
